@@ -294,6 +294,9 @@ func init() {
 		genSegCases(rng, n, 420)
 		genServeCases(rng, n*10, 4, true, 60)
 		genRespSegCases(rng, n/2)
+		// X02: the scanner's in-place edits (harness/c02x.go)
+		genScanEditFixed()
+		genScanEdit(rng, n/5)
 	}
 	props["C03"] = func(tier string, rng *Rng) {
 		n := 2500
